@@ -67,6 +67,13 @@ theorem fromString_no_oob (mem : List Nat) (len : Nat) (hl : len ≤ mem.length)
   obtain ⟨v, hv⟩ := fromString_ok mem len hl
   rw [hv]; intro h; cases h
 
+/-- the model computes the `switch` of `fromString` in unbounded `Nat`; for bytes (< 256) the
+    intermediate `uint32` value never exceeds 32 bits, so only the final subtraction wraps -/
+theorem fromString_no_wrap (b0 b1 b2 b3 : Nat) (h0 : b0 < 256) (h1 : b1 < 256) (h2 : b2 < 256) (h3 : b3 < 256) :
+    ((((((b0 <<< 6) + b1) <<< 6) + b2) <<< 6) + b3) < 4294967296 := by
+  rw [shl6, shl6, shl6]
+  omega
+
 /-- `Unicode::isValid(ch, len)` never reads outside `[ch, ch+len)`, for ARBITRARY bytes and every range. -/
 theorem isValid_no_oob (mem : List Nat) (len : Nat) (hl : len ≤ mem.length) :
     isValid mem len ≠ .oob := by
